@@ -79,7 +79,7 @@ class C15(Property):
     theorems_note = ("geq_structural (== holds exactly when kinds, shape and token texts agree, for well-formed trees over one duplicate-free "
                      "interner), geq_hash (equal => same hash input), every route yields well-formed trees (builder with any cache, "
                      "GreenNode::new, replace_with), text_len_sum (reported length = byte length of the text), child-iterator laws for the "
-                     "three non-forwarding methods (last, fold, rfold) and nth")
+                     "three non-forwarding methods (last, fold, rfold), nth, nth_back and next_back")
     assumptions = [
         "slice::Iter (std) is the sequence the remaining iterator methods forward to — each forward is exercised against a plain list",
         "hash values are never compared absolutely: only equality of the byte streams fed to a recording Hasher",
